@@ -23,6 +23,7 @@ type Period struct {
 	Writes    int    `json:"writes"`       // some traffic while relisting
 	FailAt    int    `json:"fail_at,omitempty"`   // > 0: that list call fails with FailKind
 	FailKind  string `json:"fail_kind,omitempty"`
+	Twin bool `json:"twin,omitempty"` // the builder is reused for a second controller over another server: each controller keeps listing ITS client
 	WatchFaults bool `json:"watch_faults,omitempty"` // watch streams end and connects fail while relisting goes on (the retry timer and the relist reset interleave)
 	BusyCostUs int   `json:"busy_cost_us,omitempty"` // > 0: the root filter costs this much per object and a writer keeps the watch saturated (two writes per cost) for the whole run: list results must still be taken
 	Sim       SimCfg `json:"sim"`
@@ -73,6 +74,7 @@ func genC13(g GenCtx) interface{} {
 		sc.CloseAtMs = rng.Intn(1000)
 		sc.CloseAfterSteps = 0
 	}
+	sc.Twin = rng.Intn(6) == 0
 	sc.WatchFaults = rng.Intn(4) == 0
 	busy := g.Idx%10 == 7
 	if busy {
@@ -129,7 +131,22 @@ func runC13(sci interface{}) {
 		rootFilter = world.FilterSpec{Op: "slow", V: itoa(sc.BusyCostUs)}
 	}
 	h := world.NewH(srv, rootFilter, per, false)
+	var twinSrv *world.Server
+	if sc.Twin {
+		twinSrv = world.NewServer("pod")
+		twinSrv.Apply(world.Spec{NS: "other", Name: "x"})
+		twinSrv.ListLatency, twinSrv.VaryLatency = srv.ListLatency, srv.VaryLatency
+		h.TwinSrv = twinSrv
+	}
 	h.Start()
+	closeTwin := func() {
+		if h.Twin != nil {
+			h.Twin.Close()
+			if !world.WaitClosed(h.Twin.Done(), time.Second+200*busyCost) {
+				detsim.Fail("hang:Close", "closing the second controller made from the same builder did not complete")
+			}
+		}
+	}
 	stopBusy := false
 	if busyCost > 0 {
 		go func() {
@@ -155,6 +172,7 @@ func runC13(sci interface{}) {
 	if detsim.IsClosed(h.Ctrl.Done()) {
 		if sc.FailAt > 0 && len(srv.Lists) >= sc.FailAt {
 			// fail-stop after the scripted list failure: nothing may be left behind
+			closeTwin()
 			detsim.Settle()
 			checkNoLeak()
 			return
@@ -178,6 +196,7 @@ func runC13(sci interface{}) {
 	t := detsim.NewTimerAt("deadline", bound)
 	<-t.C
 	if sc.FailAt > 0 && len(srv.Lists) >= sc.FailAt && detsim.IsClosed(h.Ctrl.Done()) {
+		closeTwin()
 		detsim.Settle()
 		checkNoLeak()
 		return
@@ -186,6 +205,14 @@ func runC13(sci interface{}) {
 		detsim.Fail("relisting-stopped", "no new list call within %v after %d calls (period %v, latency %v, %d in flight)\n%s", bound, n0, per, lat, inflight, srv.Summary())
 	}
 	checkListDiscipline(srv, per)
+	if h.Twin != nil {
+		// the second controller lists its own server, at the same period
+		checkListDiscipline(twinSrv, per)
+		if len(twinSrv.Lists) == 0 {
+			detsim.Fail("relisting-stopped", "the second controller made from the same builder never listed its client")
+		}
+		closeTwin()
+	}
 	stopBusy = true
 	grace := time.Millisecond + 200*busyCost // filter evaluations in progress (an event, a relist of a few objects) are not interrupted, and the shutdown request competes with ready events
 	// and it still shuts down promptly, wherever in the cycle
